@@ -142,6 +142,34 @@ def check_ast(ctx, sut, element, text, case):
                 ctx.count("literal.falsy_kept")
 
 
+def check_passed_keywords(ctx, sut, element, text, spec, case):
+    """Against what was PASSED to the constructor (the spec), not against what the element stored: a literal
+    keyword given a value other than the constructor's default must appear in the repr."""
+    try:
+        tree = ast.parse(text, mode="eval").body
+    except SyntaxError:
+        return
+    if not isinstance(tree, ast.Call) or isinstance(element, type) or not isinstance(spec.get("kw"), dict):
+        return
+    params = inspect.signature(type(element).__init__).parameters
+    shown = {kw.arg for kw in tree.keywords}
+    for name, passed in spec["kw"].items():
+        param = params.get(name)
+        if param is None or param.kind != param.KEYWORD_ONLY:
+            continue
+        if isinstance(passed, dict) and ("t" in passed or name in ("properties", "patternProperties", "dependencies")):
+            continue    # element-valued keywords are covered by the attribute-based check
+        if isinstance(passed, list) and any(isinstance(m, dict) and "t" in m for m in passed):
+            continue
+        default = param.default
+        if not isinstance(default, sut.NotPassed) and type_aware_equal(passed, default):
+            continue
+        ctx.count("ast.passed_keywords_checked")
+        if name not in shown:
+            ctx.witness("keyword_missing", case, f"{name}={passed!r} was passed to the constructor (default "
+                        f"{default!r}) but is missing from repr: {text[:200]}")
+
+
 def roundtrip(ctx, sut, fpm, element, case, kind):
     ctx.evaluation()
     try:
@@ -258,6 +286,10 @@ def run_shard(ctx):
         if nkw >= 2 or gen_dsl.count_nodes(spec) >= 2:
             ctx.nontrivial(canon(spec))
         roundtrip(ctx, sut, fpm, element, case, "elements")
+        try:
+            check_passed_keywords(ctx, sut, element, repr(element), spec, case)
+        except Exception:  # pylint: disable=broad-except
+            ctx.count("passed_keywords.check_failed")
         # every sub-element too (each is an element built in the DSL)
         try:
             children = list(sut.get_children(element))[:12]
